@@ -20,14 +20,15 @@ type editOp struct {
 
 type editCase struct {
 	Init  GSpec
-	Spare int // spare capacity (filled with garbage) behind the initial graph's slices
+	Built string // how the initial graphs are produced: literal, constructors, decoders, edited
+	Spare int    // spare capacity (filled with garbage) behind the initial graph's slices (literal only)
 	Ops   []editOp
 }
 
 func genEditCase(t *rapid.T) editCase {
 	maxN := sz(8, 16)
 	g := genAnyGraph(t, min(maxN, 7))
-	c := editCase{Init: specOf(g), Spare: rapid.SampledFrom([]int{0, 0, 3, 40}).Draw(t, "spare")}
+	c := editCase{Init: specOf(g), Built: rapid.SampledFrom(buildWays).Draw(t, "built"), Spare: rapid.SampledFrom([]int{0, 0, 3, 40}).Draw(t, "spare")}
 	sizes := []int{g.N}
 	nops := rapid.IntRange(1, sz(30, 120)).Draw(t, "nops")
 	for k := 0; k < nops; k++ {
@@ -101,8 +102,12 @@ func compareSlot(step, idx int, sl editSlot) error {
 
 func checkEditCase(c editCase, rec *Rec) error {
 	m0 := c.Init.Model()
-	d0, s0 := denseOf(m0), sparseOf(m0)
-	if c.Spare > 0 {
+	d0, s0, berr := builtBy(c.Built, m0)
+	if berr != nil {
+		return berr
+	}
+	rec.Label("built-" + c.Built)
+	if c.Spare > 0 && (c.Built == "literal" || c.Built == "") {
 		// spare capacity filled with garbage behind every slice of the initial graphs
 		e := make([]byte, len(d0.Edges), len(d0.Edges)+c.Spare)
 		copy(e, d0.Edges)
